@@ -185,12 +185,18 @@ fn object_field(input: &[u8]) -> IResult<&[u8], Cow<'_, str>> {
 fn index(input: &[u8]) -> IResult<&[u8], Index> {
     alt((
         map(i32, Index::Index),
-        map(
+        map_res(
             preceded(
                 tuple((tag_no_case("last"), multispace0, char('-'), multispace0)),
-                i32,
+                i64,
             ),
-            |v| Index::LastIndex(v.saturating_neg()),
+            |v| {
+                // `last - 2147483648` is the offset i32::MIN, which is what `LastIndex(i32::MIN)` prints
+                v.checked_neg()
+                    .and_then(|n| i32::try_from(n).ok())
+                    .map(Index::LastIndex)
+                    .ok_or(())
+            },
         ),
         map(
             preceded(
